@@ -157,6 +157,34 @@ fn hdr_custom_history_body(k: usize) {
     kani::cover!(true);
 }
 
+/// ENUMERATED CONCRETE histories with an EMPTY value among the operands (the symbolic schedules B / C, where an append or a re-set follows an empty
+/// value, end in CBMC out of memory and are not registered): standard key, values concrete, same postconditions
+fn hdr_empty_value_concrete_body(k: usize) {
+    let mut h = empty_headers();
+    let mut bg = Model::absent();
+    let mut key = Model::absent();
+    h.insert(BG, Cow::Borrowed("v")); bg.set(b"v");
+    let own = |s: &str| -> Cow<'static, str> { Cow::Owned(String::from(s)) };
+    match k {
+        0 => { h.insert(KEY, own("")); key.set(b""); h.append(KEY, Cow::Borrowed("x")); key.append(b"x"); }                    // append to an empty OWNED value
+        1 => { h.insert(KEY, Cow::Borrowed("")); key.set(b""); h.append(KEY, own("xy")); key.append(b"xy"); }                  // append to an empty BORROWED value
+        2 => { h.insert(KEY, own("")); key.set(b""); h.insert(KEY, Cow::Borrowed("ab")); key.set(b"ab"); }                     // re-set after an empty value
+        3 => { h.insert(KEY, own("a")); key.set(b"a"); h.append(KEY, own("")); key.append(b""); }                              // append an EMPTY value
+        4 => { h.insert(KEY, own("")); key.set(b""); h.remove(KEY); key.remove(); h.append(KEY, Cow::Borrowed("x")); key.append(b"x"); }   // empty, removed, appended
+        _ => { h.append(KEY, own("")); key.append(b""); h.append(KEY, own("")); key.append(b""); }                            // two empty appends
+    }
+    assert!(h.size == 2 + bg.line_size(4) + key.line_size(12), "size == 2 + sum over live headers of (name + 2 + value + 2)");
+    assert!(key.matches(h.get_standard(KEY)), "the operated header has exactly its latest value (set: new, append: `old, new`, remove: absent)");
+    let mut buf: Vec<u8> = Vec::new();
+    h._write_to(&mut buf);
+    assert!(buf.len() == h.size, "the serializer writes exactly `size` bytes");
+    let mut e1 = [0u8; 96]; let n1 = render(&mut e1, [(b"Vary", &bg), (b"Content-Type", &key)]);
+    let mut e2 = [0u8; 96]; let n2 = render(&mut e2, [(b"Content-Type", &key), (b"Vary", &bg)]);
+    assert!(buf_is(&buf, &e1, n1) || buf_is(&buf, &e2, n2), "wire image: every live header exactly once with its latest value, no stale line, terminated by an empty line");
+    std::mem::forget(h); std::mem::forget(buf);
+}
+//@chunks 6 c03_hdr_empty_value_concrete hdr_empty_value_concrete_body #[kani::proof] #[kani::unwind(50)]
+
 // ---------------------------------------------------------------- Response::send / complete / set_* (state + wire contracts)
 //@include spec/block_on.rs
 use vsupport::block_on;
